@@ -961,6 +961,10 @@ def _gen_graph(rng, depth, opts, in_macro_args=None):
         spec["signals"] = sig
         spec["starting"] = [labs[0]]
         spec["auto"] = False
+        # a hand-wired flow does not wait for a node that is out on an executor: what its neighbours fetch would
+        # depend on wall-clock time. Executors only where the DAG wiring makes every consumer wait.
+        for c in children:
+            c.pop("exec", None)
     return spec
 
 
@@ -1056,6 +1060,7 @@ def _mk_case(rng, tier, mode):
         _fix_returns(root["kind"], root["spec"])
     if opts["snap"] is not None and state == "midrun":
         state = "run"  # no place for the snap node was found
+    opts["has_executor"] = any(c.get("exec") for _p, c in _paths(root["spec"])) if "spec" in root else False
     case = {"root": root, "state": state, "mode": mode,
             "backend": backend,
             "rounds": rng.choice([1, 1, 2]), "target": [], "fail": [], "has_executor": bool(opts.get("has_executor"))}
@@ -1167,7 +1172,7 @@ EXHAUSTIVE = {"quick": False, "thorough": True}
 
 
 def gen_cases(rng, tier):
-    n = 600 if tier == "quick" else 9000
+    n = 600 if tier == "quick" else 20000
     if tier == "thorough":
         yield from _exhaustive()
     for k in range(n):
